@@ -156,5 +156,38 @@ def massOf (cls : GridCls) (shape : List Nat) (lo : K) (dxs : List K) (u : Arr K
 def cellMass (cls : GridCls) (shape : List Nat) (lo : K) (dxs : List K) (s : List K) : K :=
   massOf cls shape lo dxs (ofCells (validCells shape) s)
 
+/-! ### two coupled fields (the `PDE({"a": …, "c": …})` of the sim leg): only `c` is conserved -/
+
+/-- two coupled scalar fields in one padded array: a leading field index (`0` = `a`, `1` = `c`) -/
+def fieldOf (fld : Int) (u : Arr K) : Arr K := fun idx => u (fld :: idx)
+
+/-- `FieldCollection([a, c]).data.ravel()`: the valid cells of `a`, then those of `c` -/
+def cells2 (shape : List Nat) : List (List Int) :=
+  (validCells shape).map (fun idx => (0 : Int) :: idx) ++ (validCells shape).map (fun idx => (1 : Int) :: idx)
+
+/-- `auto_periodic_dirichlet`: periodic, or vanishing value at the walls -/
+def dirFaces (shape : List Nat) (dxs : List K) (pers : List Bool) : List (Face × K × Cond K) :=
+  gridFaces shape 0 (fun ax => dxs.getD ax ((1 : Nat) : K))
+    (fun ax => if pers.getD ax false then .periodic false else .dirichlet (fun _ => ((0 : Nat) : K)))
+    (fun ax => if pers.getD ax false then .periodic false else .dirichlet (fun _ => ((0 : Nat) : K)))
+    (fun _ => false) (fun _ => false)
+
+/-- the potential of the conserved field: `c³ - c + κ a` -/
+def muTwo (κ : K) : Arr K → Arr K → Arr K :=
+  fun u _ i => u (1 :: i) * u (1 :: i) * u (1 :: i) - u (1 :: i) + κ * u (0 :: i)
+
+/-- `∂_t a = ∇²a - a` (non-conserving: vanishing value at the walls), `∂_t c = ∇²(c³ - c + κ a)` (conserving conditions) -/
+def twoFieldRate (cls : GridCls) (shape : List Nat) (lo : K) (dxs : List K) (pers : List Bool) (κ : K) : Rate (Arr K) :=
+  fun u t idx =>
+    match idx with
+    | fld :: tl =>
+      if fld = 0 then lapOp cls lo dxs (setGhostAll (dirFaces shape dxs pers) (fieldOf 0 u)) tl - u idx
+      else consRate cls shape lo dxs pers (muTwo κ) u t tl
+    | [] => ((0 : Nat) : K)
+
+/-- integral of the field `c` of the collection held in `state.data` -/
+def cellMass2 (cls : GridCls) (shape : List Nat) (lo : K) (dxs : List K) (s : List K) : K :=
+  massOf cls shape lo dxs (fieldOf 1 (ofCells (cells2 shape) s))
+
 end
 end PdeVerif.Conserve
